@@ -96,13 +96,23 @@ func runVM(proto *lua.FunctionProto, bodies []string, sched [][]float64, who []i
 				}
 			}()
 			if ths[w] == nil {
-				ths[w], _ = L.NewThread()
 				fn, ok := L.GetGlobal(bodies[w]).(*lua.LFunction)
 				if !ok {
+					ths[w], _ = L.NewThread()
 					line = "nobody"
 					return
 				}
 				fns[w] = fn
+				if (len(who)+len(bodies)+w)%3 == 0 {
+					// a coroutine made by Lua's coroutine.create, driven from Go like one made by NewThread
+					if err := L.CallByParam(lua.P{Fn: L.GetField(L.GetGlobal("coroutine"), "create"), NRet: 1, Protect: true}, fn); err != nil {
+						panic(err)
+					}
+					ths[w] = L.Get(-1).(*lua.LState)
+					L.Pop(1)
+				} else {
+					ths[w], _ = L.NewThread()
+				}
 			}
 			args := make([]lua.LValue, len(sched[i]))
 			for j, a := range sched[i] {
